@@ -210,21 +210,23 @@ def getter_accepts(ctx):
     out = {}
     for b in ctx.facts.find(r'^tokinizer::tools::get_[a-z_]+$'):
         kinds = set()
-        for i in b.normal_blocks:
-            for s in b.blocks[i]['stmts']:
-                if s['k'] != 'assign':
-                    continue
-                for o in s['ops']:
-                    p = o.get('copy') or o.get('move')
-                    if not p:
+        # the match on the token kind may sit in a closure the getter hands to a shared lookup helper
+        for bb in [b] + list(closures_of(ctx, b)):
+            for i in bb.normal_blocks:
+                for s in bb.blocks[i]['stmts']:
+                    if s['k'] != 'assign':
                         continue
-                    ty_chain = p['proj']
-                    for n, pe in enumerate(ty_chain):
-                        if isinstance(pe, dict) and 'downcast' in pe:
-                            # is the downcast on a TokenType place?
-                            nxt = ty_chain[n + 1] if n + 1 < len(ty_chain) else None
-                            if isinstance(nxt, dict) and 'field' in nxt and nxt['field'].startswith('types::TokenType.'):
-                                kinds.add(pe['downcast'])
+                    for o in s['ops']:
+                        p = o.get('copy') or o.get('move')
+                        if not p:
+                            continue
+                        ty_chain = p['proj']
+                        for n, pe in enumerate(ty_chain):
+                            if isinstance(pe, dict) and 'downcast' in pe:
+                                # is the downcast on a TokenType place?
+                                nxt = ty_chain[n + 1] if n + 1 < len(ty_chain) else None
+                                if isinstance(nxt, dict) and 'field' in nxt and nxt['field'].startswith('types::TokenType.'):
+                                    kinds.add(pe['downcast'])
         callees = set(t['callee']['path'] for _, t in b.calls(r'^tokinizer::tools::get_') if t.get('callee'))
         out[b.path] = (kinds, callees)
     # compose: get_number_or_price = get_number U get_money ...
